@@ -191,7 +191,13 @@ type c29Hist struct {
 	lastCond atomic.Bool
 	ctxs     c29Ctxs
 
-	startCh  chan struct{} // closed by the controller once every worker goroutine exists
+	startCh chan struct{} // closed by the controller once every worker goroutine exists
+
+	// After a quiescence violation the history is aborted: abortClock remembers the stamp,
+	// later operations are not part of the checked history, worker-side reports are muted
+	// and the controller frees the stuck goroutines (so that none is leaked).
+	aborted    atomic.Bool
+	abortClock int64
 
 	everParked []*c29Rec // controller only
 	ctlVal     int       // controller only: next value the controller puts
@@ -228,10 +234,18 @@ func (h *c29Hist) viol(key, format string, a ...any) {
 	h.c.Violation(h.tgt+":"+key, format, a...)
 }
 
+// workerViol is a report from a worker goroutine; muted once the history was aborted
+// (the controller then injects tokens to free stuck goroutines).
+func (h *c29Hist) workerViol(key, format string, a ...any) {
+	if !h.aborted.Load() {
+		h.viol(key, format, a...)
+	}
+}
+
 // critical is executed by whoever believes it holds the gate.
 func (h *c29Hist) critical(client, yields int, next bool) {
 	if n := h.holders.Add(1); n != 1 {
-		h.viol("two-holders", "client %d entered the critical section while %d other holder(s) were inside", client, n-1)
+		h.workerViol("two-holders", "client %d entered the critical section while %d other holder(s) were inside", client, n-1)
 	}
 	for i := 0; i < yields; i++ {
 		runtime.Gosched()
@@ -246,7 +260,7 @@ func (h *c29Hist) workerExit(client int) {
 		if rec := h.cur[client].Load(); rec != nil {
 			op = c29OpName[rec.In.Kind]
 		}
-		h.viol("panic-in-"+op, "client %d: panic %v\n%s", client, e, c29Trim(string(debug.Stack())))
+		h.workerViol("panic-in-"+op, "client %d: panic %v\n%s", client, e, c29Trim(string(debug.Stack())))
 	}
 	h.done[client].Store(true)
 	h.finished.Add(1)
@@ -306,6 +320,7 @@ type c29Target interface {
 	wake(h *c29Hist, ctl int, rng *rand.Rand)
 	final(h *c29Hist, ctl int)
 	model() porcupine.Model
+	raw() c29GateAPI // the underlying gate, used only to free stuck goroutines after an abort
 }
 
 // gate adapters
@@ -382,6 +397,9 @@ func (tg *c29GateTarget) worker(h *c29Hist, client int, script []c29Step) {
 	<-h.startCh
 	g := tg.api
 	for _, s := range script {
+		if h.aborted.Load() {
+			return
+		}
 		c29Yield(s.Pre)
 		acquired := false
 		switch s.Kind {
@@ -417,6 +435,7 @@ func (tg *c29GateTarget) wake(h *c29Hist, ctl int, rng *rand.Rand) {
 }
 
 func (tg *c29GateTarget) final(h *c29Hist, ctl int) {}
+func (tg *c29GateTarget) raw() c29GateAPI           { return tg.api }
 
 type c29GateState struct {
 	Held      bool
@@ -557,6 +576,9 @@ func (tg *c29QueueTarget) worker(h *c29Hist, client int, script []c29Step) {
 	defer h.workerExit(client)
 	<-h.startCh
 	for _, s := range script {
+		if h.aborted.Load() {
+			return
+		}
 		c29Yield(s.Pre)
 		switch s.Kind {
 		case c29Put:
@@ -603,6 +625,14 @@ func (tg *c29QueueTarget) wake(h *c29Hist, ctl int, rng *rand.Rand) {
 }
 
 func (tg *c29QueueTarget) final(h *c29Hist, ctl int) { tg.snapshot(h, ctl) }
+func (tg *c29QueueTarget) raw() c29GateAPI           { return &c29QuicGatePtr{g: &tg.q.gate} }
+
+type c29QuicGatePtr struct{ g *gate }
+
+func (a *c29QuicGatePtr) lock() bool                            { return a.g.lock() }
+func (a *c29QuicGatePtr) waitAndLock(ctx context.Context) error { return a.g.waitAndLock(ctx) }
+func (a *c29QuicGatePtr) lockIfSet() bool                       { return a.g.lockIfSet() }
+func (a *c29QuicGatePtr) unlock(set, viaFunc bool)              { a.g.unlock(set) }
 
 type c29QueueState struct {
 	Items     string
@@ -714,6 +744,34 @@ func c29Quiescent(h *c29Hist, tg c29Target, nworkers int) (parked []*c29Rec, fat
 	return parked, fatal
 }
 
+// c29Rescue runs after a reported quiescence violation. Nothing here is an oracle: it only
+// gets the stuck goroutines out of the gate (cancel every context, then repeatedly lock and
+// unlock with the condition set through helper goroutines, injecting a token when even
+// lock() parks) so that the test binary does not end with leaked goroutines.
+func c29Rescue(h *c29Hist, tg c29Target, nworkers int) {
+	h.abortClock = h.clock.Load()
+	h.aborted.Store(true)
+	h.ctxs.cancelAll()
+	g := tg.raw()
+	var helpers, helpersDone atomic.Int32
+	for round := 0; round < 400; round++ {
+		synctest.Wait()
+		if int(h.finished.Load()) == nworkers && helpers.Load() == helpersDone.Load() {
+			return
+		}
+		helpers.Add(1)
+		go func() {
+			g.lock()
+			g.unlock(true, false)
+			helpersDone.Add(1)
+		}()
+		synctest.Wait()
+		if helpers.Load() != helpersDone.Load() {
+			g.unlock(true, false) // even lock() parks: no token anywhere, inject one
+		}
+	}
+}
+
 func c29RunBubble(t *testing.T, h *c29Hist, tg c29Target, scripts [][]c29Step, rng *rand.Rand) (aborted bool) {
 	var pan any
 	var stack string
@@ -760,8 +818,7 @@ func c29RunBubble(t *testing.T, h *c29Hist, tg c29Target, scripts [][]c29Step, r
 				parked, fatal := c29Quiescent(h, tg, nworkers)
 				if fatal {
 					aborted = true
-					h.ctxs.cancelAll()
-					synctest.Wait()
+					c29Rescue(h, tg, nworkers)
 					return
 				}
 				h.everParked = append(h.everParked, parked...)
@@ -868,8 +925,15 @@ func c29RunPlain(h *c29Hist, tg c29Target, scripts [][]c29Step, rng *rand.Rand) 
 
 func (h *c29Hist) all() (done []*c29Rec, pending []*c29Rec) {
 	for cl := range h.ops {
-		done = append(done, h.ops[cl]...)
-		if rec := h.cur[cl].Load(); rec != nil {
+		for _, rec := range h.ops[cl] {
+			switch {
+			case h.abortClock == 0 || rec.Ret <= h.abortClock:
+				done = append(done, rec)
+			case rec.Call <= h.abortClock:
+				pending = append(pending, &c29Rec{In: rec.In, Call: rec.Call})
+			}
+		}
+		if rec := h.cur[cl].Load(); rec != nil && (h.abortClock == 0 || rec.Call <= h.abortClock) {
 			pending = append(pending, rec)
 		}
 	}
